@@ -343,7 +343,8 @@ def json_raw(rng):
         ("json:raw", "{\"def\":{\"version\":null,\"other\":{}},\"tables\":[],\"relation\":{\"kind\":{\"Pipeline\":[]},\"columns\":[]}}"),
         ("json:raw", "{\"def\":{\"version\":\"9.9.9\",\"other\":{\"target\":\"sql.nope\"}},\"tables\":[],\"relation\":{\"kind\":{\"Pipeline\":[]},\"columns\":[]}}"),
         ("json:raw", "\ufeff{}"), ("json:raw", "{\"a\":1e999}"), ("json:raw", "1" * 5000),
-        # the replay of C12-N4: a PL with an empty Ident path
+        # the replay of C12-N4: a PL with an empty pipeline (the next one, an empty Ident path, is a JSON error since 8eee066)
+        ("json:raw", "{\"name\":\"Project\",\"stmts\":[{\"VarDef\":{\"kind\":\"Main\",\"name\":\"main\",\"value\":{\"Pipeline\":{\"exprs\":[]},\"span\":\"1:0-1\"}},\"span\":\"1:0-1\"}]}"),
         ("json:raw", "{\"name\":\"Project\",\"stmts\":[{\"VarDef\":{\"kind\":\"Main\",\"name\":\"main\",\"value\":{\"Ident\":[],\"span\":\"1:0-1\"}},\"span\":\"1:0-1\"}]}"),
     ]
 
